@@ -492,6 +492,9 @@ def run(loader, R, tier):
     # ---------------------------------------------------------------- R44.9
     stringbox_typestate(prog, R)
 
+    # --------------------------------------------------------------- R44.10
+    infix_operands(prog, R, "R44.10")
+
     # ---------------------------------------------------------------- totality
     unsupported = {}
     for v in ALL_PRINTERS:
@@ -507,6 +510,101 @@ def run(loader, R, tier):
                 un.append(short(X))
         unsupported[short(v)] = un
     R.info["unsupported_classes_per_printer"] = unsupported
+
+
+OPCH = "^*/+-"
+
+
+def infix_operands(prog, R, rid, only=None):
+    """In every _print_pow overrider of the string printers, an operand (a
+    parameter) written next to an infix operator literal goes through
+    parenthesizeLE/LT, sits between the parentheses/commas of a call, or is
+    protected by a condition on that operand."""
+    R.rule(rid, "in every _print_pow, an operand written next to an infix "
+                "operator goes through parenthesizeLE/LT (or sits inside a "
+                "call's parentheses)")
+    fs = [f for f in prog.functions.values()
+          if f["n"] == "_print_pow" and f.get("body")
+          and not f.get("dependent")
+          and prog.derives(f.get("cls") or "", "SymEngine::StrPrinter")
+          and (only is None or f.get("cls") in only)]
+    nops = 0
+    controls = []
+
+    def items_of(e, out):
+        # flatten a << chain on the stream parameter
+        if e.get("k") == "op" and e.get("op") == "<<" \
+                and len(e.get("a", ())) == 2:
+            items_of(e["a"][0], out)
+            out.append(e["a"][1])
+
+    def branches(stmts, guards, acc):
+        items = []
+        for st in stmts:
+            if st.get("k") == "expr":
+                items_of(st.get("e") or {}, items)
+            elif st.get("k") == "if":
+                for part, pol in (("t", True), ("e", False)):
+                    b = st.get(part)
+                    if b is None:
+                        continue
+                    branches(b.get("s", [b]) if b.get("k") == "{}" else [b],
+                             guards + [(st.get("c"), pol)], acc)
+            elif st.get("k") == "{}":
+                branches(st.get("s", ()), guards, acc)
+        if items:
+            acc.append((guards, items))
+
+    for f in sorted(fs, key=lambda f: f["qn"]):
+        params = {p["n"] for p in f.get("params", ())[1:]}
+        acc = []
+        branches(f["body"].get("s", ()), [], acc)
+        for guards, items in acc:
+            for i, it in enumerate(items):
+                if not (it.get("k") == "mcall" and it.get("n") == "apply"
+                        and it.get("a")):
+                    continue
+                refs = [y["n"] for y in walk(it["a"][0])
+                        if y.get("k") == "ref" and y.get("d") == "param"
+                        and y["n"] in params]
+                if not refs:
+                    continue
+                prv = items[i - 1] if i > 0 else None
+                nxt = items[i + 1] if i + 1 < len(items) else None
+                pl = (prv.get("v") or "").rstrip() if prv is not None \
+                    and prv.get("k") == "lit" else None
+                nl = (nxt.get("v") or "").lstrip() if nxt is not None \
+                    and nxt.get("k") == "lit" else None
+                after_op = pl is not None and pl[-1:] in OPCH and pl != ""
+                before_op = nl is not None and nl[:1] in OPCH and nl != ""
+                if not (after_op or before_op):
+                    continue
+                nops += 1
+                key = "%s:%s" % (short(f["qn"]), refs[0])
+                R.instance(rid, key + "@%s" % it.get("l"))
+                # a condition on the operand itself (other than comparing
+                # the *other* operand) is accepted as protection
+                guarded = any(
+                    refs[0] in [y.get("n") for y in walk(c)
+                                if y.get("k") == "ref"]
+                    and pol and c.get("n") != "eq"
+                    for c, pol in guards if c)
+                if not guarded and f["qn"].startswith("verif_positive::"):
+                    controls.append(key)
+                elif not guarded:
+                    R.violation(
+                        rid, key, prog.loc(f, it.get("l")),
+                        "%s writes the operand `%s` with a bare apply() "
+                        "next to the operator `%s`: a compound operand "
+                        "(a sum, a product, a power) is emitted without "
+                        "parentheses and the text means a different "
+                        "expression" % (short(f["qn"]), refs[0],
+                                        (pl if after_op else nl).strip()))
+    R.floor("_print_pow overriders inspected", len(fs), 2 if only else 7)
+    if only is None:
+        R.floor("positive control (verif_positive::BarePowPrinter) "
+                "recognised", len(controls), 1)
+    return nops
 
 
 SB = "SymEngine::StringBox"
